@@ -296,6 +296,71 @@ static void triples(std::integer_sequence<int, IJs...>)
 
 static void special_tests()
 {
+  // a statement without arguments is its format string, byte for byte (sanitisation concerns string arguments), whatever
+  // the backend formatted just before it
+  {
+    static constexpr MacroMetadata md_int{"c04.cpp:8", "pre", "n={}", nullptr, LogLevel::Info, MacroMetadata::Event::Log};
+    static constexpr MacroMetadata md_str{"c04.cpp:9", "pre", "s={}", nullptr, LogLevel::Info, MacroMetadata::Event::Log};
+    static constexpr MacroMetadata md_raw{"c04.cpp:10", "raw", "progress\t50%\x1b[0m done \xc3\xa9", nullptr, LogLevel::Info, MacroMetadata::Event::Log};
+    for (int pre = 0; pre < 3; ++pre)
+    {
+      size_t reserved;
+      {
+        std::string s = "tab\there";
+        if (pre == 0)
+          g_logger->log_statement<false, false>(LogLevel::None, &md_int, 7);
+        else if (pre == 1)
+          g_logger->log_statement<false, false>(LogLevel::None, &md_str, s);
+        else
+          g_logger->log_statement<false, false>(LogLevel::None, &md_str, s.c_str());
+        for (int i = 0; i < 3; ++i) g_worker->poll_one();
+        size_t const w0 = writer_pos();
+        g_logger->log_statement<false, false>(LogLevel::None, &md_raw);
+        reserved = writer_pos() - w0;
+      }
+      finish_statement("(no arguments)", "progress\t50%\x1b[0m done \xc3\xa9", reserved, false, "after statement kind#" + std::to_string(pre));
+    }
+    ++g_tuples;
+  }
+  // a statement abandoned between sizing and encoding (the direct formatter throws on the caller) leaves nothing behind
+  // that the next statement could pick up (string lengths are cached per thread between the two steps)
+  {
+    static constexpr MacroMetadata md_dt{"c04.cpp:11", "dt", "{} {}", nullptr, LogLevel::Info, MacroMetadata::Event::Log};
+    static constexpr MacroMetadata md_probe{"c04.cpp:12", "probe", "probe [{}] [{}]", nullptr, LogLevel::Info, MacroMetadata::Event::Log};
+    for (int variant = 0; variant < 2; ++variant)
+    {
+      Backing back;
+      std::string expected;
+      size_t reserved;
+      {
+        char const* shortp = back.put("ab");
+        char const* longp = back.put("0123456789");
+        g_direct_throw = true;
+        bool threw = false;
+        try
+        {
+          if (variant == 0)
+            g_logger->log_statement<false, false>(LogLevel::None, &md_dt, shortp, DirectThrow{1});
+          else
+            g_logger->log_statement<false, false>(LogLevel::None, &md_dt, DirectThrow{1}, shortp);
+        }
+        catch (std::exception const&)
+        {
+          threw = true;
+        }
+        g_direct_throw = false;
+        if (!threw) report("direct-formatter-exception-swallowed", "DirectThrow", "", "", "variant#" + std::to_string(variant));
+        for (int i = 0; i < 3; ++i) g_worker->poll_one();
+        expected = fmtquill::format("probe [{}] [{}]", longp, shortp);
+        size_t const w0 = writer_pos();
+        g_logger->log_statement<false, false>(LogLevel::None, &md_probe, longp, shortp);
+        reserved = writer_pos() - w0;
+      }
+      back.scramble_and_free();
+      finish_statement("char const*,char const* after an abandoned statement", expected, reserved, false, "variant#" + std::to_string(variant));
+    }
+    ++g_tuples;
+  }
   // terminated / unterminated char arrays with partners on both sides
   {
     static constexpr MacroMetadata md{"c04.cpp:4", "arr", "{}|{}|{}|{}", nullptr, LogLevel::Info, MacroMetadata::Event::Log};
